@@ -289,6 +289,19 @@ pub fn verify_update<H: NodeHasher>(
             return Err(VerifyUpdateError::PathWithoutOps);
         }
 
+        // A leaf found at the end of the path must itself lie below the path. This always holds
+        // for a path of a well-formed trie, but nothing in the verification of a path against
+        // an arbitrary root enforces it, and the sub-trie is built from this leaf and the ops.
+        if let Some(leaf) = path.inner.terminal() {
+            if !leaf
+                .key_path
+                .view_bits::<Msb0>()
+                .starts_with(path.inner.path())
+            {
+                return Err(VerifyUpdateError::OpOutOfScope);
+            }
+        }
+
         for (j, (key, _value)) in path.ops.iter().enumerate() {
             if j != 0 && &path.ops[j - 1].0 >= key {
                 return Err(VerifyUpdateError::OpsOutOfOrder);
